@@ -1,6 +1,7 @@
 package verifh
 
 import (
+	"fmt"
 	"bytes"
 	"os"
 	"path/filepath"
@@ -50,6 +51,7 @@ func c12Exec(t *testing.T, root string, sc c12Scenario, only int, prefix []int) 
 	}
 	synctest.Test(t, func(t *testing.T) {
 		sched := newSched(prefix)
+		sched.auto = true
 		leaf := newVFs(afero.NewOsFs(), "leaf")
 		leaf.record = false
 		leaf.Hook = func(e FsEvent) *FsFault {
@@ -244,13 +246,14 @@ func TestC12(t *testing.T) {
 		bound = 3
 	}
 	r.Extra("preemption_bound", sprintf("%d (three-client scenarios: 2)", bound))
+	if r.Shard == 0 {
+		// first, so that it reports whatever happens to the exploration below
+		runRaceAdjunct(r, "C12")
+	}
 	for _, sc := range scs {
 		if !c12Explore(t, r, w.Root, sc, bound, "C12") {
 			return
 		}
-	}
-	if r.Shard == 0 {
-		runRaceAdjunct(r, "C12")
 	}
 	r.Sample(map[string]any{"scenario": scs[0].name, "clients": scs[0].clients})
 	r.Assume("scheduling points at connection, accept and leaf filesystem operations are sufficient provided unsynchronised accesses are caught separately: the free-running -race adjunct (sampling, reported under 'race_adjunct') covers those and is not the deciding step")
@@ -302,9 +305,17 @@ func c12Explore(t *testing.T, r *Reporter, root string, sc c12Scenario, bound in
 			for k := 0; k < 5; k++ {
 				again := c12Exec(t, root, sc, -1, choicesOf(o.points))
 				same := len(again.streams) == len(o.streams)
-				for i := range o.streams {
-					if same && !bytes.Equal(again.streams[i], o.streams[i]) {
-						same = false
+				var ci int
+				if n, _ := fmt.Sscanf(sig, "stream-differs-from-solo:client%d", &ci); n == 1 && same && ci < len(solo) {
+					// a stream that is wrong because of memory shared with work that outlived its connection need not be
+					// wrong in the same bytes twice; the schedule reproduces the violation if that client's stream
+					// differs from its solo stream again
+					same = !bytes.Equal(again.streams[ci], solo[ci])
+				} else {
+					for i := range o.streams {
+						if same && !bytes.Equal(again.streams[i], o.streams[i]) {
+							same = false
+						}
 					}
 				}
 				if !same || again.diverge != "" {
